@@ -80,7 +80,12 @@ StepEv(e) ==
              /\ (IF e.w THEN WriteSay(e.edited, e.chunks) ELSE TRUE)
              /\ ok' = (ok /\ d = <<>> /\ w))
     [] OTHER -> Say("unknown-op", "", e.op) /\ ok' = FALSE
-Step == /\ l <= Len(Traces[tid].events) /\ StepEv(Ev) /\ l' = l + 1 /\ UNCHANGED tid
+(* a loaded value wider than the 32-bit field it was read from (reported by the projection, TLC integers being 32-bit) *)
+Overflow(e) == IF "overflow" \in DOMAIN e THEN e.overflow ELSE <<>>
+Step == /\ l <= Len(Traces[tid].events)
+        /\ (IF Overflow(Ev) = <<>> THEN StepEv(Ev)
+            ELSE Say("loaded-value-outside-its-32-bit-field", <<>>, Overflow(Ev)) /\ ok' = FALSE)
+        /\ l' = l + 1 /\ UNCHANGED tid
         /\ base' = IF Ev.op = "base" THEN Ev.obj ELSE base
 Done == /\ l = Len(Traces[tid].events) + 1
         /\ PrintT(ToJson([v |-> IF ok THEN "ACCEPT" ELSE "REJECT", id |-> Traces[tid].id, n |-> l - 1]))
